@@ -1,6 +1,6 @@
 """C04 — never more than `concurrency` iterations in flight; all workers usable."""
 ID = "C04"
-PROPS = ["F1Verif.Props.C04", "F1Verif.Props.FactsC04"]
+PROPS = ["F1Verif.Props.C04", "F1Verif.Props.FactsC04", "F1Verif.Props.CPool"]
 ALSO = ["F1Verif.Props.Pool"]
 RULE = ("engine B/C on real pools: pool.usable — rounds in which all W gated iterations finish together with k < W "
         "requests pending and a tick of W follows after a swept delay of 0-50 us; W iterations must be executing again "
@@ -75,6 +75,6 @@ def distribution(recs):
 
 MANIFEST = {
  "engine": "lean-proof + real pools (hooks, stress, whole runs)",
- "text": "On the trigger-pool interleaving model (any number W of workers, every schedule): at most W iterations are in flight and the pool always consists of exactly W workers, each at one program point with its own handle (C04_bound, C04_workers_constant, C04_lock_exclusive); no wake-up is lost — a worker sleeps on the condition variable only while nothing is pending and the pool is not stopping, or while the broadcast that wakes it is owed by a thread that holds or is about to take the lock (C04_no_lost_wakeup, C04_broadcast_delivered); an awake idle worker can always take a pending request (C04_take_enabled) and W simultaneous executions are reachable (C04_all_usable_witness). Tie: the real pool under a rendezvous that only completes when W bodies overlap, high-water marks and live-handle sets in stress and whole runs of all five modes.",
- "note": "Real parallelism of W goroutines and scheduler fairness are assumed (monitored, not proved); the lower bound is checked with a 1.5 s deadline against an effect that needs microseconds. The continuous pool (users) is covered by whole runs and by the start-barrier fact, not by the interleaving model.",
+ "text": "On the trigger-pool interleaving model (any number W of workers, every schedule): at most W iterations are in flight and the pool always consists of exactly W workers, each at one program point with its own handle (C04_bound, C04_workers_constant, C04_lock_exclusive); no wake-up is lost — a worker sleeps on the condition variable only while nothing is pending and the pool is not stopping, or while the broadcast that wakes it is owed by a thread that holds or is about to take the lock (C04_no_lost_wakeup, C04_broadcast_delivered); an awake idle worker can always take a pending request (C04_take_enabled) and W simultaneous executions are reachable (C04_all_usable_witness). Users mode (continuous pool, count abstraction over W workers): at most W executing, W workers for ever, and a worker at the loop test can always start an iteration while the pool is not stopped — nothing has to be pending (C04_users_bound, C04_users_take_enabled). Tie: the real pool under a rendezvous that only completes when W bodies overlap, high-water marks and live-handle sets in stress and whole runs of all five modes.",
+ "note": "Real parallelism of W goroutines and scheduler fairness are assumed (monitored, not proved); the lower bound is checked with a 1.5 s deadline against an effect that needs microseconds. The continuous pool (users) has its own small model (Props/CPool) and is covered by whole runs and by the start-barrier fact, not by the interleaving model.",
  "technique": "Lean 4 inductive invariant (no-lost-wake-up) over an interleaving semantics + rendezvous / high-water-mark monitoring of the real pools"}
